@@ -16,7 +16,7 @@ A0, B0, C1 = addr(0x11, 0), addr(0x22, 0), addr(0x33, 1)
 TOK, NFT = H("TOK-aaaaaa"), H("NFT-bbbbbb")
 G = "1000000"
 def call(shard, fn, caller, rcv, *args, gas=G, ct=0, rae=0, val=0):
-    return "call %d %s %s %s %s 0 %d %d %d %s" % (shard, fn, caller, rcv, gas, ct, rae, val, " ".join(args))
+    return ("call %d %s %s %s %s 0 %d %d %d %s" % (shard, fn, caller, rcv, gas, ct, rae, val, " ".join(args))).rstrip()
 def world(n=2): return "world %d 0 0 - %s\nepoch * 1" % (n, GAS)
 def fungible(shard, a, tok, amount_hex):   # entry written through the protocol: mint with the role
     return [call(shard, "ESDTSetRole", SYS, a, tok, H("ESDTRoleLocalMint")),
@@ -72,6 +72,13 @@ files["F7-skv-zero-gas"] = ("C06,C16", [world(),
     call(0, "SaveKeyValue", A0, A0, H("k"), H("v")),
     call(0, "SaveKeyValue", A0, A0, H("k"), H("v"), gas="0"),
     call(0, "SaveKeyValue", A0, A0, H("k"), H("v"), gas="2250")])
+# K1 (known finding, C16): a contract that owns another contract on its shard claims the developer rewards through an
+# asynchronous call: all provided gas is consumed (GasRemaining 0, no output account); the direct call is priced normally
+SCA0 = "0000000000000000" + "0500" + "55" * 21 + "00"
+SCB0 = "0000000000000000" + "0500" + "66" * 21 + "00"
+files["K1-claim-async-contract"] = ("C16", [world(), "acct 0 %s owner %s" % (SCB0, SCA0), "acct 0 %s reward 500" % SCB0,
+    call(0, "ClaimDeveloperRewards", SCA0, SCB0, ct=1), "acct 0 %s reward 300" % SCB0,
+    call(0, "ClaimDeveloperRewards", SCA0, SCB0, ct=0), "dump 0"])
 # an NFT round trip: create, same-shard hop, cross-shard hop with delivery, add URI, burn
 files["nft-roundtrip"] = ("C07,C08,C15,C01", [world()] + nft(0, A0, NFT, "03") + [
     call(0, "ESDTNFTTransfer", A0, A0, NFT, "01", "01", B0), "dump 0",
